@@ -23,13 +23,19 @@ static void enumerateAll(const std::function<void(const Spec &)> &f0) {
     for (size_t li = 0; li < Ls.size(); ++li) {
       const Layout &l = Ls[li];
       // obstruction variants: none, an in-row block, a partial-height block (both obstruct the columns)
-      for (int ov = 0; ov < (rh == 2 ? 3 : 2); ++ov) {
+      for (int ov = 0; ov < (rh == 2 ? 4 : 2); ++ov) {
         std::vector<CellSpec> fixedCells;
         if (ov == 1) { CellSpec c; c.w = 1; c.h = rh; c.x = l.x0 + 2; c.y = l.y0; c.fixed = true; c.obstruction = true; fixedCells.push_back(c); }
         if (ov == 2) { CellSpec c; c.w = 1; c.h = 1; c.x = l.x0 + 1; c.y = l.y0 + rh - 1; c.fixed = true; c.obstruction = true; fixedCells.push_back(c);
                        CellSpec d; d.w = 2; d.h = rh; d.x = l.x0 + 3; d.y = l.y0; d.fixed = true; d.obstruction = false; fixedCells.push_back(d); }
+        // a turned, non-square fixed obstruction: raw 3 x rh stored with orientation E, footprint rh wide and 3 high
+        if (ov == 3) { CellSpec c; c.w = 3; c.h = rh; c.x = l.x0 + 1; c.y = l.y0; c.orient = oE; c.fixed = true; c.obstruction = true; fixedCells.push_back(c); }
         std::vector<Rect> obs;
-        for (auto &c : fixedCells) if (c.obstruction) obs.push_back({c.x, c.x + c.w, c.y, c.y + c.h});
+        for (auto &c : fixedCells)
+          if (c.obstruction) {
+            int pw = turned(c.orient) ? c.h : c.w, ph = turned(c.orient) ? c.w : c.h;
+            obs.push_back({c.x, c.x + pw, c.y, c.y + ph});
+          }
         // free sites: (row index, x) lists
         struct Seg { int row; long long a, b; };
         std::vector<Seg> segs;
@@ -106,6 +112,13 @@ static void enumerateAll(const std::function<void(const Spec &)> &f0) {
                 s.aux = 0;
                 withParams(s, true);
               }
+  }
+  // (m) medium-size family (row-high cells only): legalize, then legalize again
+  {
+    MediumCfg mc;
+    mc.tall = false;
+    mc.stride = gThorough ? 1 : 2;
+    enumerateMedium(mc, [&](const Spec &s) { Spec t = s; t.aux = 1; f0(t); });
   }
   // (b) placements produced by legalization itself from arbitrary inputs
   Cfg b;
